@@ -6,6 +6,15 @@
 // hasher is a deterministic fold: the std SipHash is too expensive to execute symbolically and only "a function of the
 // value" matters); AtomicUsize and Arc are the real std types.
 #![allow(dead_code, unused_variables, unused_macros, static_mut_refs, unused_imports, unused_mut)]
+// `tracing::level!(..)` written with its path by an edit keeps compiling (log statements have no effect on the checks)
+pub mod tracing {
+    macro_rules! trace { ($($t:tt)*) => { () } }
+    macro_rules! debug { ($($t:tt)*) => { () } }
+    macro_rules! info { ($($t:tt)*) => { () } }
+    macro_rules! warn_ { ($($t:tt)*) => { () } }
+    macro_rules! error { ($($t:tt)*) => { () } }
+    pub(crate) use {trace, debug, info, warn_ as warn, error};
+}
 use std::future::{ready, Ready};
 use std::sync::atomic::{AtomicUsize, Ordering};
 use std::sync::Arc;
